@@ -52,6 +52,7 @@ def run_case(case):
             o2, r2 = pvlib.oracles(pool, descs[n], v)
             orc += [x for x in o2 if x not in orc]
             rem += [x for x in r2 if x not in rem]
+        venc = [pool.enc(v) for _, v in vals]      # before the operation: a mutated argument is an observation
         out, names = "Ok", False
         try:
             if how == "Attr":
@@ -59,6 +60,10 @@ def run_case(case):
                     setattr(obj, PYNAME[n], v)
             elif how == "TraitSet":
                 obj.trait_set(**{PYNAME[n]: v for n, v in vals})
+            elif how == "TraitSetQ":            # the quiet route: notifications off while assigning
+                obj.trait_set(trait_change_notify=False, **{PYNAME[n]: v for n, v in vals})
+            elif how == "TraitSetq":
+                obj.trait_setq(**{PYNAME[n]: v for n, v in vals})
             else:
                 obj = host(**{PYNAME[n]: v for n, v in vals})
         except TraitError as e:
@@ -72,8 +77,11 @@ def run_case(case):
             out = "EOverflowError"
         except Exception:
             out = "EOtherError"
-        steps.append({"out": out, "names": names, "after": snapshot(pool, obj, nids),
-                      "venc": [pool.enc(v) for _, v in vals]})
+        try:
+            mut = [pool.enc(v) for _, v in vals] != venc
+        except pvlib.Unencodable:
+            mut = True
+        steps.append({"out": out, "names": names, "after": snapshot(pool, obj, nids), "venc": venc, "mut": mut})
     return {"steps": steps, "orc": orc, "re": rem, "defaults": defaults}
 
 
